@@ -171,7 +171,29 @@ Alpha_comments == <<
     <<34>>    \* "
   >>
 
-Profiles == <<"terms", "binding", "control", "objects", "operators", "modules", "strings", "comments">>
+\* single bytes the token switch of lexer.Lex looks at (texts are the glued sequences: maximal munch)
+Alpha_lexemes == <<
+    <<97>>,   \* a
+    <<58>>,   \* :
+    <<49>>,   \* 1
+    <<36>>,   \* $
+    <<64>>,   \* @
+    <<46>>,   \* .
+    <<101>>,   \* e
+    <<45>>,   \* -
+    <<43>>,   \* +
+    <<61>>,   \* =
+    <<47>>,   \* /
+    <<63>>,   \* ?
+    <<124>>,   \* |
+    <<60>>,   \* <
+    <<33>>,   \* !
+    <<37>>,   \* %
+    <<95>>,   \* _
+    <<69>>    \* E
+  >>
+
+Profiles == <<"terms", "binding", "control", "objects", "operators", "modules", "strings", "comments", "lexemes">>
 Alphabet(p) ==
   CASE p = "terms" -> Alpha_terms
     [] p = "binding" -> Alpha_binding
@@ -181,9 +203,10 @@ Alphabet(p) ==
     [] p = "modules" -> Alpha_modules
     [] p = "strings" -> Alpha_strings
     [] p = "comments" -> Alpha_comments
+    [] p = "lexemes" -> Alpha_lexemes
 
 \* alphabets whose elements are pieces of tokens rather than tokens
-PieceProfiles == {"strings", "comments"}
+PieceProfiles == {"strings", "comments", "lexemes"}
 
 RECURSIVE JoinToks(_, _, _)
 JoinToks(ts, i, sep) ==
